@@ -660,9 +660,16 @@ def _getter(a, shape):
 
 # recursive sum over a z3 array ------------------------------------------------------------------
 _A = z3.ArraySort(z3.IntSort(), z3.RealSort())
-asum = z3.RecFunction("asum", _A, z3.IntSort(), z3.RealSort())
-_a, _n = z3.Const("a", _A), z3.Int("n")
-z3.RecAddDefinition(asum, [_a, _n], z3.If(_n <= 0, z3.RealVal(0), asum(_a, _n - 1) + _a[_n - 1]))
+# `asum(a, n)` = a[0] + ... + a[n-1].  It is an *uninterpreted* function for the solver (z3 answers `unknown` on
+# recursive functions over lambda terms); its defining equations asum(a,0)=0, asum(a,n+1)=asum(a,n)+a[n] are used
+# only in the induction proofs of the summation lemmas (pyvc.lemmas), whose instances harnesses add explicitly.
+asum = z3.Function("asum", _A, z3.IntSort(), z3.RealSort())
+
+
+def asum_definition(a):
+    """Defining equations of asum for the array term `a` (for induction proofs of lemmas)."""
+    m = z3.Int("m!sumdef")
+    return [asum(a, 0) == 0, z3.ForAll([m], z3.Implies(m >= 0, asum(a, m + 1) == asum(a, m) + a[m]))]
 
 
 # ------------------------------------------------------------------------------------------------
